@@ -1,4 +1,5 @@
-import TxV.Core.Example
+import TxV.Core.Example2
+import TxV.Core.ExampleReject
 /-!
 # C02 — explicitly conflicting transactions and methods never run together
 
@@ -16,18 +17,18 @@ namespace TxV.Core
 
 variable {D : Design} {v : Val} {S : Sched} {run : Nat → Bool}
 
--- OBLIGATION c02_conflict_never_both : whole statement, any scheduler, under driver-checked hypothesis Accepted D S (evaluated per extracted design by acceptedB / Bridge.staticOk; not proved from the executable elaborate) and under driver-checked hypothesis Cycle D v S run (evaluated per valuation by cycleEagerB / cycleRRB: ExclSem, ExclReady, method-run equations, scheduler facts): for every accepted design, every valuation, every run assignment satisfying the cycle facts, the two ends of an add_conflict relation (transactions or methods, any priority, any callers, also the same caller) are never both running
+-- OBLIGATION c02_conflict_never_both : whole statement, any scheduler, under hypothesis Accepted D S (PROVED from the executable model: Bridge.elaborate_static derives it from elaborate = ok and the executable order check; also evaluated per extracted design by Bridge.staticOk) and under driver-checked hypothesis Cycle D v S run (evaluated per valuation by cycleEagerB / cycleRRB: ExclSem, ExclReady, method-run equations, scheduler facts): for every accepted design, every valuation, every run assignment satisfying the cycle facts, the two ends of an add_conflict relation (transactions or methods, any priority, any callers, also the same caller) are never both running
 theorem c02_conflict_never_both (hA : Accepted D S) (hC : Cycle D v S run) {a b : Nat}
     (hrel : ConflictRel D a b) : ¬ (run a = true ∧ run b = true) :=
   conflict_never_both hA hC hrel
 
--- OBLIGATION c02_conflict_never_both_eager : the statement under eager_deterministic_cc_scheduler, under driver-checked hypotheses Accepted, ExclSem, ExclReady, MethodRunEq, Eager (run solves schedulers.py:38-43 and the method-run equations)
+-- OBLIGATION c02_conflict_never_both_eager : the statement under eager_deterministic_cc_scheduler, under hypothesis Accepted (proved from the executable elaborate: Bridge.elaborate_static) and driver-checked per-cycle hypotheses ExclSem, ExclReady, MethodRunEq, Eager (run solves schedulers.py:38-43 and the method-run equations)
 theorem c02_conflict_never_both_eager (hA : Accepted D S) (hs : ExclSem D v) (hr : ExclReady D v)
     (hm : MethodRunEq D v run) (he : Eager D v S run) {a b : Nat} (hrel : ConflictRel D a b) :
     ¬ (run a = true ∧ run b = true) :=
   conflict_never_both hA (Cycle.ofEager hA hs hr hm he) hrel
 
--- OBLIGATION c02_conflict_never_both_rr : the statement under trivial_roundrobin_cc_scheduler, under driver-checked hypotheses Accepted, CompOk, ExclSem, ExclReady, MethodRunEq, RoundRobin (at most one grant per component, grants only requesters)
+-- OBLIGATION c02_conflict_never_both_rr : the statement under trivial_roundrobin_cc_scheduler, under hypothesis Accepted (proved from the executable elaborate: Bridge.elaborate_static) and driver-checked per-cycle hypotheses CompOk, ExclSem, ExclReady, MethodRunEq, RoundRobin (at most one grant per component, grants only requesters)
 theorem c02_conflict_never_both_rr {comp : Nat → Nat} (hA : Accepted D S) (hc : CompOk D S comp)
     (hs : ExclSem D v) (hr : ExclReady D v) (hm : MethodRunEq D v run)
     (he : RoundRobin D v comp run) {a b : Nat} (hrel : ConflictRel D a b) :
@@ -43,8 +44,14 @@ theorem c02_exclReady_of_tree (cv : CVal) (mods : List (Int × Blk)) (hnd : (mod
 example cycle (eager) `T2` runs and `T1` does not; in the round-robin cycle `T1` runs, `T2` not -/
 example : acceptedB Ex.D Ex.S = true ∧ cycleEagerB Ex.D Ex.v Ex.S Ex.run = true ∧
     cycleRRB Ex.D Ex.v Ex.S Ex.comp Ex.runRR = true ∧ BodiesPlaced Ex.D Ex.v Ex.cv [(0, Ex.tree)] ∧
-    Ex.run 2 = true ∧ Ex.run 1 = false ∧ Ex.runRR 1 = true ∧ Ex.runRR 2 = false := by decide
+    Ex.run 2 = true ∧ Ex.run 1 = false ∧ Ex.runRR 1 = true ∧ Ex.runRR 2 = false :=
+  ⟨Ex.accepted, Ex.cycleEager, Ex.cycleRR, Ex.bodiesPlaced, rfl, rfl, rfl, rfl⟩
 example : ConflictRel Ex.D 1 2 := ⟨by decide, by decide, ⟨2, .left, true, false⟩, by decide, rfl, rfl⟩
+
+/-- non-vacuity (same caller): `T` calling `M1` and `M2` with `M1.add_conflict(M2)` is rejected when
+the calls are unconditional and accepted when they sit in the two alternatives of an `If/Else` -/
+example : accept Rej.sameTransConflict (fun t => t) = false ∧ accept Rej.sameTransExclusive (fun t => t) = true :=
+  ⟨Rej.sameTransConflict_rejected, Rej.sameTransExclusive_accepted⟩
 
 end TxV.Core
 
